@@ -1,0 +1,204 @@
+//! Verification shim, compiled only with `--cfg orx_concurrent_iter_verif`.
+//!
+//! Drop-in replacements of the two atomic types used by the crate which report every operation
+//! (identity of the atomic, kind, memory ordering, operand and observed value) to a tracer installed
+//! by an external harness. Without an installed tracer the types behave exactly as the std types.
+#![allow(missing_docs)]
+
+use std::sync::atomic::Ordering;
+use std::sync::OnceLock;
+
+/// Kind of the atomic operation.
+#[derive(Debug, Clone, Copy, PartialEq, Eq)]
+pub enum OpKind {
+    Load,
+    Store,
+    FetchAdd,
+}
+
+/// Type of the atomic the operation is applied to.
+#[derive(Debug, Clone, Copy, PartialEq, Eq)]
+pub enum AtomTy {
+    Usize,
+    Bool,
+}
+
+/// Description of an atomic operation which is about to be / has just been executed.
+#[derive(Debug, Clone, Copy)]
+pub struct AtomicOp {
+    /// Creation id of the atomic.
+    pub id: usize,
+    pub ty: AtomTy,
+    pub kind: OpKind,
+    pub ord: Ordering,
+    /// Operand of the operation (0 for loads; 0/1 for bool stores).
+    pub arg: usize,
+}
+
+/// Receiver of the reports.
+pub trait Tracer: Send + Sync {
+    /// Called right before the atomic operation is executed; a scheduling point.
+    fn before(&self, op: &AtomicOp);
+    /// Called right after the atomic operation is executed with the value it observed
+    /// (previous value for `fetch_add`, loaded value for `load`, stored value for `store`).
+    fn after(&self, op: &AtomicOp, saw: usize);
+    /// Called when an atomic is created.
+    fn created(&self, _id: usize, _ty: AtomTy, _init: usize) {}
+}
+
+static TRACER: OnceLock<Box<dyn Tracer>> = OnceLock::new();
+static NEXT_ID: std::sync::atomic::AtomicUsize = std::sync::atomic::AtomicUsize::new(0);
+
+/// Installs the tracer; can be called once per process.
+pub fn set_tracer(tracer: Box<dyn Tracer>) -> bool {
+    TRACER.set(tracer).is_ok()
+}
+
+/// Creation id that the next created atomic will get.
+pub fn next_atomic_id() -> usize {
+    NEXT_ID.load(Ordering::SeqCst)
+}
+
+#[inline]
+fn tracer() -> Option<&'static dyn Tracer> {
+    TRACER.get().map(|b| b.as_ref())
+}
+
+fn new_id(ty: AtomTy, init: usize) -> usize {
+    let id = NEXT_ID.fetch_add(1, Ordering::SeqCst);
+    if let Some(t) = tracer() {
+        t.created(id, ty, init);
+    }
+    id
+}
+
+#[derive(Debug)]
+pub struct AtomicUsize {
+    inner: std::sync::atomic::AtomicUsize,
+    id: usize,
+}
+
+impl AtomicUsize {
+    pub fn new(value: usize) -> Self {
+        Self {
+            inner: std::sync::atomic::AtomicUsize::new(value),
+            id: new_id(AtomTy::Usize, value),
+        }
+    }
+
+    fn op(&self, kind: OpKind, ord: Ordering, arg: usize) -> AtomicOp {
+        AtomicOp {
+            id: self.id,
+            ty: AtomTy::Usize,
+            kind,
+            ord,
+            arg,
+        }
+    }
+
+    pub fn fetch_add(&self, val: usize, ord: Ordering) -> usize {
+        match tracer() {
+            None => self.inner.fetch_add(val, ord),
+            Some(t) => {
+                let op = self.op(OpKind::FetchAdd, ord, val);
+                t.before(&op);
+                let saw = self.inner.fetch_add(val, ord);
+                t.after(&op, saw);
+                saw
+            }
+        }
+    }
+
+    pub fn load(&self, ord: Ordering) -> usize {
+        match tracer() {
+            None => self.inner.load(ord),
+            Some(t) => {
+                let op = self.op(OpKind::Load, ord, 0);
+                t.before(&op);
+                let saw = self.inner.load(ord);
+                t.after(&op, saw);
+                saw
+            }
+        }
+    }
+
+    pub fn store(&self, val: usize, ord: Ordering) {
+        match tracer() {
+            None => self.inner.store(val, ord),
+            Some(t) => {
+                let op = self.op(OpKind::Store, ord, val);
+                t.before(&op);
+                self.inner.store(val, ord);
+                t.after(&op, val);
+            }
+        }
+    }
+}
+
+impl From<usize> for AtomicUsize {
+    fn from(value: usize) -> Self {
+        Self::new(value)
+    }
+}
+
+#[derive(Debug)]
+pub struct AtomicBool {
+    inner: std::sync::atomic::AtomicBool,
+    id: usize,
+}
+
+impl AtomicBool {
+    pub fn new(value: bool) -> Self {
+        Self {
+            inner: std::sync::atomic::AtomicBool::new(value),
+            id: new_id(AtomTy::Bool, value as usize),
+        }
+    }
+
+    fn op(&self, kind: OpKind, ord: Ordering, arg: usize) -> AtomicOp {
+        AtomicOp {
+            id: self.id,
+            ty: AtomTy::Bool,
+            kind,
+            ord,
+            arg,
+        }
+    }
+
+    pub fn load(&self, ord: Ordering) -> bool {
+        match tracer() {
+            None => self.inner.load(ord),
+            Some(t) => {
+                let op = self.op(OpKind::Load, ord, 0);
+                t.before(&op);
+                let saw = self.inner.load(ord);
+                t.after(&op, saw as usize);
+                saw
+            }
+        }
+    }
+
+    pub fn store(&self, val: bool, ord: Ordering) {
+        match tracer() {
+            None => self.inner.store(val, ord),
+            Some(t) => {
+                let op = self.op(OpKind::Store, ord, val as usize);
+                t.before(&op);
+                self.inner.store(val, ord);
+                t.after(&op, val as usize);
+            }
+        }
+    }
+}
+
+impl From<bool> for AtomicBool {
+    fn from(value: bool) -> Self {
+        Self::new(value)
+    }
+}
+
+/// Mirror of the part of `std::sync::atomic` that the crate uses.
+pub mod atomic {
+    pub use super::{AtomicBool, AtomicUsize};
+    pub use std::sync::atomic::Ordering;
+}
